@@ -213,7 +213,7 @@ def judge(chk, lib, pop, order):
 
 def main(chk):
     quick = chk.tier == 'quick'
-    n_schemas, n_pops = (10, 4) if quick else (120, 8)
+    n_schemas, n_pops = (10, 12) if quick else (120, 16)
     schemas = []
     for k in range(n_schemas):
         rng = random.Random('c11/%d/%d' % (chk.seed, k))
@@ -229,7 +229,18 @@ def main(chk):
         for pi in range(n_pops):
             rng = random.Random('c11p/%d/%d/%d' % (chk.seed, k, pi))
             pop = gen_pop(s, rng, True)
-            ids = [i.id for i in pop.insts]
+            # order of the instances in the file: ascending names, descending, one high name in the middle, shuffled
+            how = ('asc', 'shuffled', 'desc', 'high-in-middle')[pi % 4]
+            fi = sorted(pop.insts, key=lambda i: i.id)
+            if how == 'desc':
+                fi.reverse()
+            elif how == 'shuffled':
+                rng.shuffle(fi)
+            elif how == 'high-in-middle' and len(fi) > 2:
+                fi.insert(len(fi) // 2, fi.pop())
+            pop = gen_p21.Population(pop.schema, fi, pop.header)
+            chk.tag('file order:' + how)
+            ids = sorted(i.id for i in pop.insts)
             tgt_ids = [i.id for i in pop.insts if i.parts[0][0].lower().startswith('t')]
             orders = [ids, list(reversed(ids)), tgt_ids]
             o = list(ids)
